@@ -25,287 +25,67 @@ rejected.
 about the observable behaviour is decided by the other areas.
 -/
 import Driver.Util
-import Ekit.Model.ArrayBQ
-import Ekit.Model.LinkedBQ
+import Driver.Ev.Core
+import Driver.Ev.BQ
 
 namespace Driver.EvTrace
-open Driver Ekit Ekit.Conc Ekit.BQ
+open Driver Driver.Ev
 
-/-- "a/b/c" → [a,b,c]; "" → [] -/
-def parseSlash (s : String) : Option (List Int) :=
-  if s = "" then some [] else (s.splitOn "/").mapM (·.toInt?)
-
-/-- "k1=v1,k2=v2" lookup -/
-def snapField (snap key : String) : Option String :=
-  (snap.splitOn ",").findSome? fun w =>
-    if w.startsWith (key ++ "=") then some ((w.drop (key.length + 1)).toString) else none
-
-def parseRet : List String → Option Ret
-  | ["ok"] => some .ok
-  | ["ctxErr"] => some .ctxErr
-  | ["err"] => some .err
-  | ["val", v] => v.toInt?.map .val
-  | ["n", k] => k.toInt?.map .n
-  | ["slice", l] => (parseInts l).map .slice
-  | _ => none
-
-def parseOp : List String → Option Op
-  | "enq" :: v :: _ => v.toInt?.map .enq
-  | "deq" :: _ => some .deq
-  | ["len"] => some .len
-  | ["asslice"] => some .asSlice
-  | _ => none
-
-/-! ### array blocking queue -/
-namespace ABQ
-open Ekit.ArrayBQ
-
-/-- program counters whose next step is not a logged synchronisation action -/
-def silent : Pc → Bool
-  | .eStore _ | .eAdv _ | .dRead | .dAdv _ | .lRead | .aMake | .aLoop _ _ => true
-  | _ => false
-
-/-- advance `t` over silent steps -/
-def advance (s : State) (t : Nat) : Nat → Except String State
-  | 0 => .error "model: too many silent steps"
-  | fuel + 1 =>
-    if silent (s.pc t) then
-      match step s (.tau t) with
-      | some s' => advance s' t fuel
-      | none => .error s!"model: thread {t} cannot perform the statement at {repr (s.pc t)}"
-    else .ok s
-
-def tau (s : State) (t : Nat) (what : String) : Except String State :=
-  match step s (.tau t) with
-  | some s' => if s'.panicked then .error s!"model: {what} makes the model panic" else .ok s'
-  | none => .error s!"model: {what} by thread {t} is not enabled in the model's state (pc {repr (s.pc t)}, writer {repr s.writer}, readers {s.readers}, enqFree {s.enqFree}, deqFree {s.deqFree})"
-
-/-- the context of `t`'s call was observed ended -/
-def ended (s : State) (t : Nat) : Except String State :=
-  if s.ctxDone t then .ok s else
-  match step s (.ctxEnd t) with
-  | some s' => .ok s'
-  | none => .error "model: ctxEnd not enabled"
-
-def checkSnap (s : State) (snap : String) : Except String Unit :=
-  if snap = "na" ∨ snap = "-" ∨ snap = "" then .ok () else
-  match (snapField snap "head").bind (·.toNat?), (snapField snap "tail").bind (·.toNat?),
-        (snapField snap "count").bind (·.toInt?), (snapField snap "data").bind parseSlash with
-  | some h, some tl, some c, some d =>
-    if h = s.head ∧ tl = s.tail ∧ c = s.count ∧ d = s.data then .ok ()
-    else .error s!"snapshot inside the critical section ({snap}) differs from the model: head={s.head} tail={s.tail} count={s.count} data={renderInts s.data}"
-  | _, _, _, _ => .error s!"unreadable snapshot {snap}"
-
-/-- one logged synchronisation action `fn:act` with result `res` of thread `t` -/
-def sync (s : State) (t : Nat) (fn act res : String) : Except String State := do
-  let s ← advance s t 10000
-  let bad : Except String State :=
-    .error s!"thread {t} logged {fn}:{act} ({res}) where the model is at {repr (s.pc t)}"
-  match s.pc t, act with
-  | .eAcq _, "SemAcquire(enqueueCap)" =>
-    if res = "nil" then tau s t act
-    else do
-      let s ← ended s t
-      match step s (.ctxArm t) with
-      | some s' => pure s'
-      | none => .error "model: Acquire cannot fail here"
-  | .dAcq, "SemAcquire(dequeueCap)" =>
-    if res = "nil" then tau s t act
-    else do
-      let s ← ended s t
-      match step s (.ctxArm t) with
-      | some s' => pure s'
-      | none => .error "model: Acquire cannot fail here"
-  | .eLock _, "Lock(mutex)" => tau s t act
-  | .dLock, "Lock(mutex)" => tau s t act
-  | .eChk _, "ctx.Err" | .dChk, "ctx.Err" =>
-    if res = "nil" then
-      if s.ctxDone t then .error s!"thread {t}: ctx.Err() = nil after the context had been observed ended" else tau s t act
-    else do
-      let s ← ended s t
-      tau s t act
-  | .eRelBack, "SemRelease(enqueueCap)" => tau s t act
-  | .dRelBack, "SemRelease(dequeueCap)" => tau s t act
-  | .eRel, "SemRelease(dequeueCap)" => tau s t act
-  | .dRel _, "SemRelease(enqueueCap)" => tau s t act
-  | .unlock .ctxErr, "ctx.Err" =>       -- the `return ctx.Err()` of the early exit
-    if res = "nil" then .error s!"thread {t}: the early exit returns a nil ctx.Err()" else pure s
-  | .unlock _, "Unlock(mutex)" =>
-    do checkSnap s res; tau s t act
-  | .lRLock, "RLock(mutex)" => tau s t act
-  | .aRLock, "RLock(mutex)" => tau s t act
-  | .runlock (.n _), "RUnlock(mutex)" => do checkSnap s res; tau s t act
-  | .runlock (.slice _), "RUnlock(mutex)" => do checkSnap s res; tau s t act
-  | _, _ => bad
-
-def inv (s : State) (t : Nat) (op : Op) : Except String State :=
-  match step s (.inv t op) with
-  | some s' => .ok s'
-  | none => .error s!"model: thread {t} starts a call while the model has it at {repr (s.pc t)}"
-
-def res (s : State) (t : Nat) (r : Ret) : Except String State := do
-  let s ← advance s t 10000
-  match step s (.res t r) with
-  | some s' => pure s'
-  | none => .error s!"thread {t} returned {repr r} where the model is at {repr (s.pc t)}"
-
-end ABQ
-
-/-! ### linked blocking queue (+ cond) -/
-namespace LBQ
-open Ekit.LinkedBQ
-
-def silent : Pc → Bool
-  | .eGuard _ | .eSigRead _ | .eAppend _ | .dGuard | .dSigRead | .dDelete | .bcSwap _ _ | .lRead | .aRead => true
-  | _ => false
-
-def advance (s : State) (t : Nat) : Nat → Except String State
-  | 0 => .error "model: too many silent steps"
-  | fuel + 1 =>
-    if silent (s.pc t) then
-      match step s (.tau t) with
-      | some s' => advance s' t fuel
-      | none => .error s!"model: thread {t} cannot perform the statement at {repr (s.pc t)}"
-    else .ok s
-
-def tau (s : State) (t : Nat) (what : String) : Except String State :=
-  match step s (.tau t) with
-  | some s' => if s'.panicked then .error s!"model: {what} makes the model panic" else .ok s'
-  | none => .error s!"model: {what} by thread {t} is not enabled in the model's state (pc {repr (s.pc t)}, writer {repr s.writer}, readers {s.readers}, notEmpty {repr s.notEmpty}, notFull {repr s.notFull})"
-
-def ended (s : State) (t : Nat) : Except String State :=
-  if s.ctxDone t then .ok s else
-  match step s (.ctxEnd t) with
-  | some s' => .ok s'
-  | none => .error "model: ctxEnd not enabled"
-
-def checkSnap (s : State) (snap : String) : Except String Unit :=
-  if snap = "na" ∨ snap = "-" ∨ snap = "" then .ok () else
-  match (snapField snap "max").bind (·.toInt?), (snapField snap "q").bind parseSlash with
-  | some m, some q =>
-    if m = s.maxSize ∧ q = s.q then .ok ()
-    else .error s!"snapshot inside the critical section ({snap}) differs from the model: maxSize={s.maxSize} q={renderInts s.q}"
-  | _, _ => .error s!"unreadable snapshot {snap}"
-
-def ctxObs (s : State) (t : Nat) (res act : String) : Except String State :=
-  if res = "nil" then
-    if s.ctxDone t then .error s!"thread {t}: ctx.Err() = nil after the context had been observed ended" else tau s t act
-  else do
-    let s ← ended s t
-    tau s t act
-
-def sync (s : State) (t : Nat) (fn act res : String) : Except String State := do
-  let s ← advance s t 10000
-  let bad : Except String State :=
-    .error s!"thread {t} logged {fn}:{act} ({res}) where the model is at {repr (s.pc t)}"
-  match s.pc t, act with
-  | .eCtx _, "ctx.Err" => ctxObs s t res act
-  | .dCtx, "ctx.Err" => ctxObs s t res act
-  | .ret .ctxErr, "ctx.Err" =>            -- `return ctx.Err()` after the check / the ctx.Done() arm
-    if res = "nil" then .error s!"thread {t}: a context-error exit returns a nil ctx.Err()" else pure s
-  | .eLock _, "Lock(mutex)" => tau s t act
-  | .dLock, "Lock(mutex)" => tau s t act
-  | .eSigUnlock _ _, "Unlock(l)" | .dSigUnlock _, "Unlock(l)" => tau s t act
-  | .eSelect _ _, "Select:Recv(signal)" => tau s t act
-  | .dSelect _, "Select:Recv(signal)" => tau s t act
-  | .eSelect _ _, "Select:Recv(ctx.Done())" | .dSelect _, "Select:Recv(ctx.Done())" => do
-      let s ← ended s t
-      match step s (.ctxArm t) with
-      | some s' => pure s'
-      | none => .error "model: the ctx.Done() arm is not enabled"
-  | .bcUnlock _ _ _, "Unlock(l)" => tau s t act
-  | .bcClose _ _ _, "Close(old)" => tau s t act
-  | .lRLock, "RLock(mutex)" => tau s t act
-  | .aRLock, "RLock(mutex)" => tau s t act
-  | .runlock (.n _), "RUnlock(mutex)" => do checkSnap s res; tau s t act
-  | .runlock (.slice _), "RUnlock(mutex)" => do checkSnap s res; tau s t act
-  | _, _ => bad
-
-def inv (s : State) (t : Nat) (op : Op) : Except String State :=
-  match step s (.inv t op) with
-  | some s' => .ok s'
-  | none => .error s!"model: thread {t} starts a call while the model has it at {repr (s.pc t)}"
-
-def res (s : State) (t : Nat) (r : Ret) : Except String State := do
-  let s ← advance s t 10000
-  match step s (.res t r) with
-  | some s' => pure s'
-  | none => .error s!"thread {t} returned {repr r} where the model is at {repr (s.pc t)}"
-
-end LBQ
-
-/-! ### the checker -/
-
+/-- the model state of the running scenario: one constructor per target -/
 inductive St where
   | none
   | dead                      -- a line of this scenario was rejected: the rest of it is not judged again
-  | abq (s : ArrayBQ.State)
-  | lbq (s : LinkedBQ.State)
-
-def argInt (ws : List String) (key : String) : Option Int :=
-  ws.findSome? fun w => if w.startsWith (key ++ "=") then ((w.drop (key.length + 1)).toString).toInt? else none
-
-/-- split "Type_Func:Action(target)" at the first ':' -/
-def splitSite (site : String) : String × String :=
-  match site.splitOn ":" with
-  | fn :: rest => (fn, ":".intercalate rest)
-  | [] => (site, "")
+  | abq (s : Ekit.ArrayBQ.State)
+  | lbq (s : Ekit.LinkedBQ.State)
 
 def liftE {σ} (wrap : σ → St) (r : Except String σ) : St × Option String :=
   match r with
   | .ok s => (wrap s, none)
   | .error m => (.dead, some m)
 
+/-- `new evt <target> k=v …` -/
+def start (tgt : String) (args : List String) : St × Option String :=
+  match tgt with
+  | "abq" => liftE .abq (ABQ.init args)
+  | "lbq" => liftE .lbq (LBQ.init args)
+  | _ => (.dead, some s!"unknown target {tgt}")
+
+/-- one event of thread `t` -/
+def event (st : St) (t : Nat) (what : String) (args : List String) (obs : String) : St × Option String :=
+  let (fn, act) := splitSite what
+  match st with
+  | .none => (.none, some "event outside a scenario")
+  | .dead => (.dead, none)
+  | .abq s =>
+    if what = "inv" then liftE .abq (ABQ.invL s t args) else if what = "res" then liftE .abq (ABQ.resL s t args)
+    else liftE .abq (ABQ.sync s t fn act obs)
+  | .lbq s =>
+    if what = "inv" then liftE .lbq (LBQ.invL s t args) else if what = "res" then liftE .lbq (LBQ.resL s t args)
+    else liftE .lbq (LBQ.sync s t fn act obs)
+
+def finish : St → Option String
+  | .abq s => ABQ.atEnd s
+  | .lbq s => LBQ.atEnd s
+  | _ => none
+
 def checker (model : Bool) : Checker where
   σ := St
   init := .none
   step st op obs :=
     if !model then (st, none) else
-    let ws := words op
-    match ws with
+    match words op with
     | "new" :: "evt" :: tgt :: rest =>
       if resultTok obs ≠ "ok" then (.dead, some s!"scenario failed: {obs}")
       else if field obs "instrumented" ≠ some "true" then (.dead, some "the harness was not built against an instrumented copy")
-      else match tgt, argInt rest "cap" with
-        | "abq", some c => if c < 1 then (.dead, some "capacity < 1") else (.abq (ArrayBQ.init c.toNat), none)
-        | "lbq", some c => (.lbq (LinkedBQ.init c), none)
-        | _, _ => (.dead, some s!"bad-op {op}")
-    | ["end"] =>
-      match st with
-      | .abq s => if s.live.isEmpty then (.none, none) else (.none, some "calls still in flight in the model at the end of the scenario")
-      | .lbq s => if s.live.isEmpty then (.none, none) else (.none, some "calls still in flight in the model at the end of the scenario")
-      | _ => (.none, none)
+      else start tgt rest
+    | ["end"] => (.none, finish st)
     | "e" :: tid :: what :: args =>
       match st, tid.toNat? with
       | .dead, _ => (.dead, none)
-      | .none, _ => (.none, some "event outside a scenario")
       | _, none =>
         -- the constructor runs on the harness's own goroutine before the threads start: the model's `init`
         if what.startsWith "New" then (st, none) else (.dead, some s!"event of an unregistered goroutine: {op}")
-      | .abq s, some t =>
-        if what = "inv" then
-          match parseOp args with
-          | some o => liftE .abq (ABQ.inv s t o)
-          | none => (.dead, some s!"bad-op {op}")
-        else if what = "res" then
-          match parseRet args with
-          | some r => liftE .abq (ABQ.res s t r)
-          | none => (.dead, some s!"bad-op {op}")
-        else
-          let (fn, act) := splitSite what
-          liftE .abq (ABQ.sync s t fn act obs)
-      | .lbq s, some t =>
-        if what = "inv" then
-          match parseOp args with
-          | some o => liftE .lbq (LBQ.inv s t o)
-          | none => (.dead, some s!"bad-op {op}")
-        else if what = "res" then
-          match parseRet args with
-          | some r => liftE .lbq (LBQ.res s t r)
-          | none => (.dead, some s!"bad-op {op}")
-        else
-          let (fn, act) := splitSite what
-          liftE .lbq (LBQ.sync s t fn act obs)
+      | _, some t => event st t what args obs
     | _ => (st, some s!"bad-op {op}")
 
 end Driver.EvTrace
